@@ -368,13 +368,34 @@ class Installed:
             m.socket = ns
         self.coring, self.saved_coring = coring, coring.socket
         coring.socket = ResolverModule()
+        # a client that has to make its own TLS context (http redirect from http:// to https://) gets a fake one
+        self.saved_ssl = clienting.ssl
+        clienting.ssl = SslModule(self.net)
         return self.net
 
     def __exit__(self, *exc):
         for m, s in zip(self.mods, self.saved):
             m.socket = s
         self.coring.socket = self.saved_coring
+        self.mods[0].ssl = self.saved_ssl
         return False
+
+
+class SslModule:
+    """stand-in for the `ssl` module global of hio.core.tcp.clienting: constants and exception classes are the real ones, the
+    two ways of making a context yield a FakeSSLContext on this net"""
+
+    def __init__(self, net):
+        self._net = net
+
+    def __getattr__(self, name):
+        return getattr(_ssl, name)
+
+    def create_default_context(self, *a, **kw):
+        return FakeSSLContext(self._net)
+
+    def SSLContext(self, *a, **kw):
+        return FakeSSLContext(self._net)
 
 
 class ResolverModule:
